@@ -31,7 +31,7 @@ from vlib.val import line
 from vlib.compare import diff, Err, exc_kind
 
 ID = 'C09'
-PYOBJECT_METHODS = ['translate', 'scale', 'project', 'set_dimension', 'force_rational']   # splineobject.py methods re-translated and proved equal to the hand model each run
+PYOBJECT_METHODS = ['translate', 'scale', 'project', 'set_dimension', 'force_rational', '__iadd__', '__isub__', '__imul__', '__itruediv__', '__add__', '__radd__', '__sub__', '__mul__', '__rmul__', '__div__', 'scale_p', 'rotate', 'mirror', 'rotation_matrix']   # splineobject.py methods re-translated and proved equal to the hand model each run
 # theorems of this property stated for the object evaluator `Obj.evaluate` (bridge through C02)
 EXTRA_THEOREMS = [('Splipy.Properties.Bridge', 'Splipy/Properties/Bridge.lean', 'Bridge_C09_')]
 RTOL = 1e-9
